@@ -38,6 +38,8 @@ func init() {
 		runner.Part{Scenario: "simhost", Params: p("pmember", "10", "ptransfer", "10"), Share: 1})
 	sh("C04", 90, 1200, runner.Part{Scenario: "simhost", Params: p("pcrash", "12", "fsyield", "300", "torn", "1"), Share: 2},
 		runner.Part{Scenario: "simhost", Params: p("pcrash", "6", "fsyield", "50"), Share: 1})
+	sh("C06", 90, 1200, runner.Part{Scenario: "simhost", Params: p("readmix", "70", "ppartition", "10", "pdup", "30", "preorder", "40", "ptransfer", "8"), Share: 2},
+		runner.Part{Scenario: "simhost", Params: p("readmix", "60", "pmember", "10", "pcrash", "5"), Share: 1})
 	sh("C07", 90, 1200, runner.Part{Scenario: "simhost", Params: p("pmember", "20", "hosts", "4"), Share: 2},
 		runner.Part{Scenario: "simhost", Params: p("pmember", "12", "hosts", "5", "pcrash", "6"), Share: 1})
 	sh("C11", 90, 1200, runner.Part{Scenario: "simhost", Params: p("smyield", "500", "pstop", "6", "psnapreq", "10"), Share: 2},
